@@ -291,6 +291,15 @@ fn execute_history(run: &Run, opts: &ExecOpts) -> Outcome {
     let mut torn_open: BTreeMap<String, bool> = BTreeMap::new();
     let mut dead = false;
     let stdout = std::io::stdout();
+    {
+        let saves = run.ops.iter().filter(|o| matches!(o, Op::Write { .. } | Op::Delete { .. })).count();
+        if saves > 14 {
+            cx.out.stats.probe("history_with_more_than_14_saves");
+        }
+        if saves > 40 {
+            cx.out.stats.probe("history_with_more_than_40_saves");
+        }
+    }
 
     'ops: for (i, op) in run.ops.iter().enumerate() {
         if opts.progress {
